@@ -91,6 +91,7 @@ type FnExec struct {
 	phiEdges      map[*ssa.BasicBlock][]phiEdge
 	ifaceType     map[Term]types.Type // interface value term -> pointee type of the boxed pointer
 	curArgTypes   []types.Type
+	curHavocType  types.Type
 	clauseErr     string // error met while evaluating the clause about to be asserted / assumed
 	evalDepth     int
 	warns         []string
